@@ -13,6 +13,10 @@ CLAIMED["C24"] = {
     "text": "Inductive bounded model checking: ONE public operation (set/get/getitem/del/contains/len/keys/values/items/iter, symbolic op selector, key and value) of the real LRUCache and ThreadSafeLRUCache from an arbitrary valid state (n <= capacity <= 4 distinct unbounded symbolic int keys, arbitrary recency order; also string keys) against a list model; the post-state has the pre-state's shape so histories of any length follow. Thread-safety: a lock monitor in the dict stub shows every dict access (incl. each iterator step) is made under the lock, and a listing interleaved with a symbolic write at a symbolic point never fails and is a snapshot. All conditions exhaust their path tree.",
     "note": "Trusted: CrossHair/z3; ModelOD stub for collections.OrderedDict (differentially validated against the real class on every run); threads modelled at lock/iterator-step granularity, not real preemption.",
 }
+CLAIMED["C10"] = {
+    "text": "Bounded model checking of the template lexer's whitespace-control logic: (A) the real liquid.lex._tokenize_template is driven by stub regex-match objects so that text fragments are symbolic strings (<= 2 code points over space/newline/letter) and all hyphen flags symbolic; tokens go through the real parser and renderer and z3 decides on every path that the output equals 'text verbatim, left-stripped iff the previous closing delimiter has a hyphen, right-stripped iff the next opening delimiter has one; raw body verbatim; comment/doc bodies absent', for single markups and ordered pairs of markups (output, tag, echo, inline comment, raw, doc, comment). (B) the same oracle on the whole real pipeline incl. the compiled regular expression, with text from an 8-element pool and symbolic flags (solver-steered enumeration, labelled sel_only) for 9 markup kinds, shorthand comments and all 81 ordered pairs.",
+    "note": "Trusted: CrossHair/z3; in (A) the stub match generator (conformance-checked against the real compiled pattern on every run). The regular expressions themselves are exercised only on pool texts (B). Custom delimiters are out (C11).",
+}
 NOT_APPLICABLE = {
     "C11": "delimiters flow only into re.escape/re.compile and functools.lru_cache keys (C code needing concrete values): no dimension is left for a solver to decide; enumerating delimiter sets would be bounded testing, a different technique (DESIGN.md §6)",
 }
